@@ -120,6 +120,10 @@ func (s *Session) install() {
 	}
 }
 
+// SetFuel bounds the VM instructions of everything run on the session from now on (used when the real read-eval
+// loop drives the VM, so that the harness never calls run itself). Exhaustion panics with FuelPanic.
+func (s *Session) SetFuel(n int) { s.steps, s.fuel = 0, n }
+
 // StmtResult is the observation of one top-level statement.
 type StmtResult struct {
 	Compiled  bool
